@@ -326,7 +326,7 @@ def ob_filter_ts(timeout):
 def obligations(tier):
     obs = []
     if tier == "quick":
-        for n, w, p in ((4, 3, True), (4, 3, False), (4, 5, True), (3, 4, True), (4, 0, True), (0, 3, True), (1, 5, True), (4, 8, False), (4, 2, True), (4, 4, True), (5, 4, False)):
+        for n, w, p in ((4, 3, True), (4, 3, False), (4, 5, True), (3, 4, True), (4, 0, True), (0, 3, True), (1, 5, True), (4, 8, False), (4, 2, True), (4, 4, True), (5, 4, False), (3, 3, False), (5, 5, False)):
             obs.append(ob_median(n, w, p, "int", 120))
         obs.append(ob_median(4, 5, True, "float", 120))
         obs.append(ob_median(4, 3, False, "float", 120))
